@@ -199,6 +199,17 @@ def hyp_seed(seed, shard, salt=0):
     return (int(seed) * 1000003 + shard * 7919 + salt * 104729) % (2 ** 63)
 
 
+class CaseTimeout(BaseException):
+    """One generated case ran longer than CASE_TIMEOUT seconds (BaseException: the code under test must not be able to swallow it)."""
+
+
+CASE_TIMEOUT = 180.0
+
+
+def _alarm(signum, frame):
+    raise CaseTimeout()
+
+
 def run_hypothesis(ctx, prop, strategies, max_examples, salt=0, shrink=True, exclude_buckets=True, rounds=3, minimise=None):
     """Run `prop(*drawn)` under Hypothesis. prop raises Violation on a property failure.
 
@@ -222,7 +233,18 @@ def run_hypothesis(ctx, prop, strategies, max_examples, salt=0, shrink=True, exc
             if 't0' in last and time.time() - last['t0'] > SHRINK_BUDGET and not _same_args(args, last.get('args')):
                 return
             try:
-                prop(*args)
+                import signal
+                signal.signal(signal.SIGALRM, _alarm)
+                signal.setitimer(signal.ITIMER_REAL, CASE_TIMEOUT)
+                try:
+                    prop(*args)
+                finally:
+                    signal.setitimer(signal.ITIMER_REAL, 0)
+            except CaseTimeout:
+                # a time budget hit is inconclusive, never a violation by itself (a check that knows the case must be fast catches
+                # CaseTimeout itself and reports what it means)
+                ctx.discard('case-timeout-%ds' % int(CASE_TIMEOUT))
+                return
             except MemoryError:
                 # the shard's address-space net (pbt.run) was hit: a generated case built gigabytes of data; resource
                 # exhaustion of the host is outside every property, the case is discarded
